@@ -1,7 +1,9 @@
-(* C12: altering a byte of a record header makes reading that record fail (for the class of
-   alterations that keep the varint framing, proved without any probabilistic assumption from
-   uvarint injectivity and the CRC burst lemma), and the one alteration class that is NOT
-   detected (F-C12a), exhibited by a concrete witness. *)
+(* C12: altering a byte of a record header makes reading that record fail.  Proved, without any
+   probabilistic assumption: (1) every alteration that keeps the varint framing (uvarint injectivity
+   and the CRC burst lemma), (2) EVERY alteration of a byte of the stored checksum varint, whatever
+   follows the header (canonicity of the minimal uvarint reader), and (3) the reader accepts as a record
+   header only byte strings the writer's [hdr] produces.  The alteration that the parser without the
+   minimal-encoding check accepted (F-C12a) is shown rejected. *)
 From GoSST Require Import Base.Bytes Base.Varint Base.VarintFacts Base.Crc Base.CrcFacts.
 From GoSST Require Import RecordIO.Format RecordIO.FormatFacts RecordIO.SeqReader RecordIO.MmapReader.
 From Coq Require Import Lia.
@@ -13,27 +15,7 @@ Definition alter (l : bytes) (j : nat) (v : N) : bytes := firstn j l ++ v :: ski
 Definition same_framing (old v : N) : Prop := (old <? 128) = (v <? 128).
 
 (* ---- bit-level facts ---- *)
-Lemma land127_small b : b < 128 -> N.land b 127 = b.
-Proof. intro H. change 127 with (N.ones 7). rewrite N.land_ones. apply N.mod_small. exact H. Qed.
-
-Lemma group_low a c : N.land (N.lor (N.land a 127) (N.shiftl c 7)) 127 = N.land a 127.
-Proof.
-  apply N.bits_inj; intro n. rewrite !N.land_spec, N.lor_spec, N.land_spec.
-  change 127 with (N.ones 7).
-  destruct (N.ltb_spec n 7) as [H|H].
-  - rewrite N.ones_spec_low by lia. rewrite N.shiftl_spec_low by lia.
-    rewrite !andb_true_r, orb_false_r. reflexivity.
-  - rewrite N.ones_spec_high by lia. rewrite !andb_false_r. reflexivity.
-Qed.
-
-Lemma group_high a c : N.shiftr (N.lor (N.land a 127) (N.shiftl c 7)) 7 = c.
-Proof.
-  apply N.bits_inj; intro n. rewrite N.shiftr_spec', N.lor_spec, N.land_spec.
-  change 127 with (N.ones 7).
-  rewrite N.ones_spec_high by lia. rewrite andb_false_r. cbn [orb].
-  rewrite N.shiftl_spec_high' by lia. f_equal. lia.
-Qed.
-
+(* land127_small, group_low, group_high and uv_val now live in Base/VarintFacts.v *)
 Lemma mod128_cases a : a < 256 -> a mod 128 = if a <? 128 then a else a - 128.
 Proof.
   intro H. destruct (N.ltb_spec a 128) as [Hs|Hb].
@@ -53,10 +35,7 @@ Proof.
   - apply N.ltb_ge in Hf. lia.
 Qed.
 
-(* ---- value and framing of a uvarint byte string ---- *)
-Fixpoint uv_val (e : bytes) : N :=
-  match e with [] => 0 | b :: t => N.lor (N.land b 127) (N.shiftl (uv_val t) 7) end.
-
+(* ---- framing of a uvarint byte string (its value uv_val is in Base/VarintFacts.v) ---- *)
 Fixpoint framed (e : bytes) : bool :=
   match e with
   | [] => false
@@ -89,6 +68,10 @@ Proof.
   intros Hf H. pose proof (dec_framed_go e rest Hf 10%nat 0 0 0) as G.
   unfold uv_dec in H. rewrite H in G. rewrite N.lor_0_l, N.shiftl_0_r in G. exact G.
 Qed.
+
+Lemma dec_min_framed e rest v l :
+  framed e = true -> uv_dec_min (e ++ rest) = Ok (v, l) -> v = uv_val e /\ l = rest.
+Proof. intros Hf H. apply uv_dec_min_dec in H. revert H. apply dec_framed. exact Hf. Qed.
 
 Lemma enc_framed : forall fuel x, (0 < fuel)%nat -> x < 2 ^ (7 * N.of_nat fuel) ->
   framed (uv_enc_fuel fuel x) = true.
@@ -207,15 +190,15 @@ Lemma parse_framed m nb eu ec ek rest r :
   uv_val m = magic /\ crc32c (m ++ nb :: eu ++ ec) = uv_val ek.
 Proof.
   intros Hm Hu Hc Hk. unfold parse_hdr.
-  destruct (uv_dec (m ++ nb :: eu ++ ec ++ ek ++ rest)) as [[mv l1]|er] eqn:D1; [|discriminate].
-  apply dec_framed in D1; [|exact Hm]. destruct D1 as [-> ->].
+  destruct (uv_dec_min (m ++ nb :: eu ++ ec ++ ek ++ rest)) as [[mv l1]|er] eqn:D1; [|discriminate].
+  apply dec_min_framed in D1; [|exact Hm]. destruct D1 as [-> ->].
   destruct (N.eqb_spec (uv_val m) magic) as [Emag|Emag]; cbn [negb]; [|discriminate].
-  destruct (uv_dec (eu ++ ec ++ ek ++ rest)) as [[uv l3]|er] eqn:D2; [|discriminate].
-  apply dec_framed in D2; [|exact Hu]. destruct D2 as [-> ->].
-  destruct (uv_dec (ec ++ ek ++ rest)) as [[cv l4]|er] eqn:D3; [|discriminate].
-  apply dec_framed in D3; [|exact Hc]. destruct D3 as [-> ->].
-  destruct (uv_dec (ek ++ rest)) as [[kv l5]|er] eqn:D4; [|discriminate].
-  apply dec_framed in D4; [|exact Hk]. destruct D4 as [-> ->].
+  destruct (uv_dec_min (eu ++ ec ++ ek ++ rest)) as [[uv l3]|er] eqn:D2; [|discriminate].
+  apply dec_min_framed in D2; [|exact Hu]. destruct D2 as [-> ->].
+  destruct (uv_dec_min (ec ++ ek ++ rest)) as [[cv l4]|er] eqn:D3; [|discriminate].
+  apply dec_min_framed in D3; [|exact Hc]. destruct D3 as [-> ->].
+  destruct (uv_dec_min (ek ++ rest)) as [[kv l5]|er] eqn:D4; [|discriminate].
+  apply dec_min_framed in D4; [|exact Hk]. destruct D4 as [-> ->].
   replace (m ++ nb :: eu ++ ec ++ ek ++ rest) with ((m ++ nb :: eu ++ ec) ++ ek ++ rest)
     by (norm_app; reflexivity).
   rewrite firstn_consumed.
@@ -399,31 +382,254 @@ Proof.
   rewrite He. destruct e; eexists; reflexivity.
 Qed.
 
-(* The full statement ("ANY single-byte alteration of a header byte is detected") is false of the
-   code: setting the continuation bit of the last checksum byte makes ReadUvarint absorb the next
-   byte; when that byte is 0x00 the decoded checksum is unchanged and a shifted payload is returned.
-   Witness: payload 00 01 02 03 04 05, header byte 10: 05 -> 85. *)
-Theorem header_alteration_refuted :
-  exists usz csz isnil rest j v,
-    usz < 2 ^ 64 /\ csz < 2 ^ 64 /\ (j < length (hdr usz csz isnil))%nat /\ v < 256
-    /\ v <> nth j (hdr usz csz isnil) 0
-    /\ exists r, parse_hdr (alter (hdr usz csz isnil) j v ++ rest) = Ok r.
+(* ================================================================================================
+   The minimal-encoding check of the record-header parser.
+   ================================================================================================ *)
+
+Lemma app_eq_length_inv {A} (a c b d : list A) :
+  a ++ b = c ++ d -> length a = length c -> a = c /\ b = d.
 Proof.
-  exists 6, 0, false, [0; 1; 2; 3; 4; 5], 10%nat, 0x85.
-  split; [reflexivity|]. split; [reflexivity|].
-  split; [vm_compute; lia|]. split; [reflexivity|].
-  split; [vm_compute; discriminate|].
-  eexists. vm_compute. reflexivity.
+  revert c. induction a as [|x a IH]; intros c E L; destruct c as [|y c]; cbn [length] in L; try lia.
+  - split; [reflexivity|exact E].
+  - cbn [app] in E. injection E as Exy E. destruct (IH c E) as [-> ->]; [lia|]. subst y. split; reflexivity.
+Qed.
+
+Lemma firstn_lenN_app (a b : bytes) : firstn (N.to_nat (lenN a)) (a ++ b) = a.
+Proof.
+  unfold lenN. rewrite Nat2N.id, firstn_app, Nat.sub_diag, firstn_all. cbn [firstn]. apply app_nil_r.
+Qed.
+
+Lemma alter_bytes l : forall j v, Forall (fun x => x < 256) l -> v < 256 -> Forall (fun x => x < 256) (alter l j v).
+Proof.
+  induction l as [|b t IH]; intros j v Hl Hv.
+  - rewrite alter_nil. constructor; [exact Hv|constructor].
+  - inversion Hl as [|b' t' Hb Ht]; subst b' t'. destruct j as [|j].
+    + rewrite alter_0. constructor; assumption.
+    + rewrite alter_S. constructor; [exact Hb|apply IH; assumption].
+Qed.
+
+Lemma alter_same l j v : (j < length l)%nat -> alter l j v = l -> v = nth j l 0.
+Proof.
+  intros Hj E. destruct (alter_split l j v Hj) as [E1 E2]. rewrite E1 in E. rewrite E2 in E at 3.
+  apply app_inv_head in E. injection E as E. exact E.
+Qed.
+
+(* the three field varints of a written header parse to the written values; what is left is the
+   comparison of the checksum of those bytes with whatever the fourth varint holds *)
+Lemma parse_hdr_fields usz csz nb tl :
+  usz < 2 ^ 64 -> csz < 2 ^ 64 ->
+  let pre := uv_enc magic ++ [nb] ++ uv_enc usz ++ uv_enc csz in
+  parse_hdr (pre ++ tl) =
+    match uv_dec_min tl with
+    | Err e => Err e
+    | Ok (expected, l5) =>
+        if crc32c pre =? expected
+        then Ok (usz, csz, nb =? 1, N.of_nat (length (pre ++ tl) - length l5))
+        else Err HeaderChecksum
+    end.
+Proof.
+  intros Hu Hc pre.
+  assert (Hl : pre ++ tl = uv_enc magic ++ nb :: uv_enc usz ++ uv_enc csz ++ tl).
+  { unfold pre. norm_app. reflexivity. }
+  unfold parse_hdr. rewrite Hl at 1.
+  rewrite uv_dec_min_roundtrip by (vm_compute; reflexivity).
+  rewrite N.eqb_refl. cbn [negb].
+  rewrite uv_dec_min_roundtrip by exact Hu. rewrite uv_dec_min_roundtrip by exact Hc.
+  cbv zeta. rewrite firstn_consumed. reflexivity.
+Qed.
+
+(* what an accepted header looks like: four byte strings of minimal length around the nil-flag byte *)
+Lemma parse_hdr_inv l usz csz isnil n :
+  parse_hdr l = Ok (usz, csz, isnil, n) ->
+  exists e1 nb e2 e3 e4 l5,
+    l = e1 ++ nb :: e2 ++ e3 ++ e4 ++ l5
+    /\ isnil = (nb =? 1)
+    /\ n = lenN (e1 ++ nb :: e2 ++ e3 ++ e4)
+    /\ (Forall (fun b => b < 256) e1 -> e1 = uv_enc magic)
+    /\ (Forall (fun b => b < 256) e2 -> e2 = uv_enc usz)
+    /\ (Forall (fun b => b < 256) e3 -> e3 = uv_enc csz)
+    /\ (Forall (fun b => b < 256) e4 -> e4 = uv_enc (crc32c (e1 ++ nb :: e2 ++ e3))).
+Proof.
+  unfold parse_hdr. intro H.
+  destruct (uv_dec_min l) as [[m l1]|er] eqn:D1; [|discriminate].
+  destruct (N.eqb_spec m magic) as [Em|Em]; cbn [negb] in H; [|discriminate].
+  destruct l1 as [|nb l2]; [discriminate|].
+  destruct (uv_dec_min l2) as [[u l3]|er] eqn:D2; [|discriminate].
+  destruct (uv_dec_min l3) as [[c l4]|er] eqn:D3; [|discriminate].
+  cbv zeta in H.
+  destruct (uv_dec_min l4) as [[ex l5]|er] eqn:D4; [|discriminate].
+  destruct (N.eqb_spec (crc32c (firstn (length l - length l4) l)) ex) as [Ec|Ec]; [|discriminate].
+  injection H as Hu Hc Hn Hlen.
+  apply uv_dec_min_consumed in D1. destruct D1 as (e1 & L1 & _ & C1).
+  apply uv_dec_min_consumed in D2. destruct D2 as (e2 & L2 & _ & C2).
+  apply uv_dec_min_consumed in D3. destruct D3 as (e3 & L3 & _ & C3).
+  apply uv_dec_min_consumed in D4. destruct D4 as (e4 & L4 & _ & C4).
+  subst l4 l3 l2 m u c.
+  assert (EL : l = (e1 ++ nb :: e2 ++ e3) ++ e4 ++ l5) by (rewrite L1; norm_app; reflexivity).
+  rewrite EL in Ec. rewrite firstn_consumed in Ec.
+  exists e1, nb, e2, e3, e4, l5.
+  split; [rewrite L1; reflexivity|]. split; [symmetry; exact Hn|].
+  split.
+  { rewrite <- Hlen. rewrite EL. unfold lenN. f_equal.
+    repeat (rewrite app_length || cbn [length]). lia. }
+  split; [exact C1|]. split; [exact C2|]. split; [exact C3|].
+  rewrite Ec. exact C4.
+Qed.
+
+(* TASK 1 of the minimal-encoding check: the only byte strings the reader accepts as a record header
+   are the ones the writer produces for the same field values.  [nb] is the nil-flag byte (a raw
+   byte: the reader takes 1 as "nil" and everything else as "not nil"; the writer only writes 0 or 1,
+   so for those the accepted bytes are literally [hdr usz csz isnil]). *)
+Theorem parse_hdr_accepts_only_written_headers l usz csz isnil n :
+  parse_hdr l = Ok (usz, csz, isnil, n) ->
+  Forall (fun b => b < 256) (firstn (N.to_nat n) l) ->
+  let nb := nth 3 l 0 in
+  let pre := uv_enc magic ++ [nb] ++ uv_enc usz ++ uv_enc csz in
+  firstn (N.to_nat n) l = pre ++ uv_enc (crc32c pre)
+  /\ n = lenN (pre ++ uv_enc (crc32c pre))
+  /\ isnil = (nb =? 1)
+  /\ (nb <= 1 -> firstn (N.to_nat n) l = hdr usz csz isnil /\ n = lenN (hdr usz csz isnil)).
+Proof.
+  intros H HW.
+  destruct (parse_hdr_inv l usz csz isnil n H) as (e1 & b & e2 & e3 & e4 & l5 & El & Enil & En & C1 & C2 & C3 & C4).
+  assert (EL : l = (e1 ++ b :: e2 ++ e3 ++ e4) ++ l5) by (rewrite El; norm_app; reflexivity).
+  rewrite En, EL, firstn_lenN_app in HW.
+  rewrite !Forall_app, Forall_cons_iff, !Forall_app in HW.
+  destruct HW as (W1 & Wb & W2 & W3 & W4).
+  specialize (C1 W1). specialize (C2 W2). specialize (C3 W3). specialize (C4 W4). subst e1 e2 e3.
+  assert (Enb : nth 3 l 0 = b) by (rewrite El, uv_enc_magic; reflexivity).
+  cbv zeta. rewrite Enb.
+  replace (uv_enc magic ++ [b] ++ uv_enc usz ++ uv_enc csz)
+    with (uv_enc magic ++ b :: uv_enc usz ++ uv_enc csz) by reflexivity.
+  rewrite <- C4.
+  assert (EH : (uv_enc magic ++ b :: uv_enc usz ++ uv_enc csz) ++ e4
+               = uv_enc magic ++ b :: uv_enc usz ++ uv_enc csz ++ e4) by (norm_app; reflexivity).
+  assert (EF : firstn (N.to_nat n) l = (uv_enc magic ++ b :: uv_enc usz ++ uv_enc csz) ++ e4).
+  { rewrite En, EL, firstn_lenN_app. symmetry. exact EH. }
+  assert (EN : n = lenN ((uv_enc magic ++ b :: uv_enc usz ++ uv_enc csz) ++ e4)).
+  { rewrite En, EH. reflexivity. }
+  split; [exact EF|]. split; [exact EN|]. split; [exact Enil|].
+  intro Hb.
+  assert (EHdr : (uv_enc magic ++ b :: uv_enc usz ++ uv_enc csz) ++ e4 = hdr usz csz isnil).
+  { unfold hdr, hdr_prefix. cbv zeta. rewrite C4.
+    assert (Hb' : b = 0 \/ b = 1) by lia.
+    destruct Hb' as [-> | ->]; rewrite Enil; reflexivity. }
+  rewrite <- EHdr. split; [exact EF|exact EN].
+Qed.
+
+(* the same for a source of bytes: an accepted header IS a written header, the input continues after it *)
+Corollary parse_hdr_accepted_is_hdr l usz csz isnil n :
+  Forall (fun b => b < 256) l -> nth 3 l 0 <= 1 ->
+  parse_hdr l = Ok (usz, csz, isnil, n) ->
+  exists rest, l = hdr usz csz isnil ++ rest /\ n = lenN (hdr usz csz isnil).
+Proof.
+  intros HW Hb H.
+  assert (HW' : Forall (fun b => b < 256) (firstn (N.to_nat n) l)).
+  { rewrite <- (firstn_skipn (N.to_nat n) l) in HW. apply Forall_app in HW. apply HW. }
+  destruct (parse_hdr_accepts_only_written_headers l usz csz isnil n H HW') as (_ & _ & _ & K).
+  destruct (K Hb) as [K1 K2]. exists (skipn (N.to_nat n) l). split; [|exact K2].
+  rewrite <- K1. symmetry. apply firstn_skipn.
+Qed.
+
+(* TASK 2: EVERY alteration of a byte of the stored checksum varint is detected, whatever follows the
+   header.  The field bytes are unchanged, so the computed checksum is the written one; a checksum
+   varint that is accepted and holds that value consists of exactly the written bytes (canonicity),
+   and those are as long as the altered ones. *)
+Theorem checksum_bytes_alteration_detected usz csz isnil rest j v :
+  usz < 2 ^ 64 -> csz < 2 ^ 64 ->
+  (length (hdr_prefix usz csz isnil) <= j < length (hdr usz csz isnil))%nat ->
+  v < 256 -> v <> nth j (hdr usz csz isnil) 0 ->
+  exists e, parse_hdr (alter (hdr usz csz isnil ++ rest) j v) = Err e.
+Proof.
+  intros Hu Hc Hj Hv Hne.
+  destruct (alter_app (hdr usz csz isnil) rest j v) as [(_ & A1 & _)|(j0 & J0 & _)];
+    [rewrite app_length; lia| |lia].
+  rewrite A1. clear A1.
+  unfold hdr in *. cbv zeta in *.
+  set (pre := hdr_prefix usz csz isnil) in *. set (k := crc32c pre) in *. set (ek := uv_enc k) in *.
+  destruct (alter_app pre ek j v) as [(J1 & _)|(j' & J1 & L1 & A2 & N2)]; [lia|lia|].
+  rewrite A2. rewrite N2 in Hne. clear A2 N2.
+  rewrite <- app_assoc.
+  unfold pre at 1, hdr_prefix. rewrite (parse_hdr_fields usz csz (if isnil then 1 else 0)) by assumption.
+  fold (hdr_prefix usz csz isnil). fold pre. fold k.
+  destruct (uv_dec_min (alter ek j' v ++ rest)) as [[ex l5]|er] eqn:D; [|exists er; reflexivity].
+  destruct (N.eqb_spec k ex) as [E|E]; [|exists HeaderChecksum; reflexivity].
+  exfalso. subst ex.
+  apply uv_dec_min_consumed in D. destruct D as (e & El & Elen & Ecan).
+  fold ek in Elen, Ecan.
+  apply app_eq_length_inv in El; [|rewrite alter_length by exact L1; symmetry; exact Elen].
+  destruct El as [El _]. subst e.
+  apply Hne. apply alter_same; [exact L1|]. apply Ecan.
+  apply alter_bytes; [apply uv_enc_bytes|exact Hv].
+Qed.
+
+(* the partial theorem and the checksum theorem together *)
+Theorem header_byte_alteration_detected_ext usz csz isnil rest j v :
+  usz < 2 ^ 64 -> csz < 2 ^ 64 ->
+  (j < length (hdr usz csz isnil))%nat -> v < 256 ->
+  v <> nth j (hdr usz csz isnil) 0 ->
+  (j = 3%nat \/ same_framing (nth j (hdr usz csz isnil) 0) v
+   \/ (length (hdr_prefix usz csz isnil) <= j)%nat) ->
+  exists e, parse_hdr (alter (hdr usz csz isnil) j v ++ rest) = Err e.
+Proof.
+  intros Hu Hc Hj Hv Hne [H | [H | H]].
+  - apply header_byte_alteration_detected; try assumption. left. exact H.
+  - apply header_byte_alteration_detected; try assumption. right. exact H.
+  - destruct (alter_app (hdr usz csz isnil) rest j v) as [(_ & A1 & _)|(j0 & J0 & _)];
+      [rewrite app_length; lia| |lia].
+    rewrite <- A1. apply checksum_bytes_alteration_detected; try assumption. lia.
+Qed.
+
+(* both readers, for the extended class of alterations *)
+Corollary altered_header_read_next_ext (c : codec) pre usz csz isnil tail j v :
+  usz < 2 ^ 64 -> csz < 2 ^ 64 ->
+  (j < length (hdr usz csz isnil))%nat -> v < 256 ->
+  v <> nth j (hdr usz csz isnil) 0 ->
+  (j = 3%nat \/ same_framing (nth j (hdr usz csz isnil) 0) v
+   \/ (length (hdr_prefix usz csz isnil) <= j)%nat) ->
+  exists e, fst (read_next c (pre ++ alter (hdr usz csz isnil) j v ++ tail) (lenN pre)) = Err e.
+Proof.
+  intros Hu Hc Hj Hv Hne Hfr. unfold read_next. rewrite skip_prefix.
+  destruct (header_byte_alteration_detected_ext usz csz isnil
+              (firstn (36 - length (hdr usz csz isnil)) tail) j v Hu Hc Hj Hv Hne Hfr) as [e He].
+  rewrite <- window_altered in He by assumption.
+  destruct (parse_hdr_stream_err _ _ He) as [e' He']. rewrite He'.
+  destruct e'; try (eexists; reflexivity).
+  destruct (zero_tail (alter (hdr usz csz isnil) j v ++ tail)); eexists; reflexivity.
+Qed.
+
+Corollary altered_header_read_at_ext (c : codec) pre usz csz isnil tail j v :
+  usz < 2 ^ 64 -> csz < 2 ^ 64 ->
+  (j < length (hdr usz csz isnil))%nat -> v < 256 ->
+  v <> nth j (hdr usz csz isnil) 0 ->
+  (j = 3%nat \/ same_framing (nth j (hdr usz csz isnil) 0) v
+   \/ (length (hdr_prefix usz csz isnil) <= j)%nat) ->
+  exists e, read_at c (pre ++ alter (hdr usz csz isnil) j v ++ tail) (lenN pre) = Err e.
+Proof.
+  intros Hu Hc Hj Hv Hne Hfr. unfold read_at.
+  destruct (lenN (pre ++ alter (hdr usz csz isnil) j v ++ tail) <? lenN pre); [eexists; reflexivity|].
+  unfold sub. rewrite skip_prefix. change (N.to_nat max_header_size) with 36%nat.
+  destruct (header_byte_alteration_detected_ext usz csz isnil
+              (firstn (36 - length (hdr usz csz isnil)) tail) j v Hu Hc Hj Hv Hne Hfr) as [e He].
+  rewrite <- window_altered in He by assumption.
+  destruct (firstn 36 (alter (hdr usz csz isnil) j v ++ tail)) as [|w ws] eqn:W; [eexists; reflexivity|].
+  rewrite He. destruct e; eexists; reflexivity.
 Qed.
 
 Definition id_codec : codec := mkCodec 0 (fun x => x) (fun x => Ok x).
 
-(* ... and what the readers then return: the payload shifted by one byte, without error *)
-Example f_c12a_witness :
+(* The alteration the parser without the minimal-encoding check accepted (F-C12a): continuation bit
+   set on the last checksum byte (header byte 10: 05 -> 85) and 0x00 as the next byte, payload
+   00 01 02 03 04 05.  It is rejected now, by the parser and by both readers. *)
+Example old_witness_now_rejected :
+  parse_hdr (alter (hdr 6 0 false) 10 0x85 ++ [0; 1; 2; 3; 4; 5]) = Err HeaderChecksum.
+Proof. vm_compute. reflexivity. Qed.
+
+Example old_witness_readers_reject :
   let f := file_hdr 0 ++ alter (hdr 6 0 false) 10 0x85 ++ [0; 1; 2; 3; 4; 5] ++ enc_rec id_codec (Some [9]) in
   nth 10 (hdr 6 0 false) 0 = 0x05
-  /\ read_at id_codec f 8 = Ok (Some [1; 2; 3; 4; 5; 0x91])
-  /\ fst (read_next id_codec f 8) = Ok (Some [1; 2; 3; 4; 5; 0x91]).
+  /\ read_at id_codec f 8 = Err HeaderChecksum
+  /\ fst (read_next id_codec f 8) = Err HeaderChecksum.
 Proof.
   cbv zeta. split; [vm_compute; reflexivity|]. split; vm_compute; reflexivity.
 Qed.
@@ -431,5 +637,11 @@ Qed.
 Print Assumptions header_byte_alteration_detected.
 Print Assumptions altered_header_read_next.
 Print Assumptions altered_header_read_at.
-Print Assumptions header_alteration_refuted.
-Print Assumptions f_c12a_witness.
+Print Assumptions parse_hdr_accepts_only_written_headers.
+Print Assumptions parse_hdr_accepted_is_hdr.
+Print Assumptions checksum_bytes_alteration_detected.
+Print Assumptions header_byte_alteration_detected_ext.
+Print Assumptions altered_header_read_next_ext.
+Print Assumptions altered_header_read_at_ext.
+Print Assumptions old_witness_now_rejected.
+Print Assumptions old_witness_readers_reject.
